@@ -421,25 +421,66 @@ class Exec:
         raise AnalysisError("unsupported statement %s at line %d" % (type(s).__name__, s.lineno))
 
     def copy_loop(self, s, st):
-        """Recognise   while True: data = SRC.read(K); if not data: break; DST.write(data)"""
-        ok = isinstance(s.test, ast.Constant) and s.test.value is True and len(s.body) == 3
-        if ok:
-            a, b, c = s.body
-            ok = (isinstance(a, ast.Assign) and isinstance(a.value, ast.Call) and isinstance(a.value.func, ast.Attribute) and a.value.func.attr == "read"
-                  and isinstance(b, ast.If) and isinstance(b.test, ast.UnaryOp) and isinstance(b.body[0], ast.Break)
-                  and isinstance(c, ast.Expr) and isinstance(c.value, ast.Call) and isinstance(c.value.func, ast.Attribute) and c.value.func.attr == "write")
-        if not ok:
-            raise AnalysisError("unsupported loop at line %d (only the copy-to-EOF idiom is modelled)" % s.lineno)
+        """Recognise the block-copy loops
+              while True: data = SRC.read(K); if <stop>: break; DST.write(data)
+              while True: data = SRC.read(K); DST.write(data); if <stop>: break
+        <stop> = `not data` / `len(data) == 0` (copies to EOF), `len(data) < K` (short read: copies to EOF for
+        regular files and BytesIO - recorded as an assumption), `len(data) <= K` (always true after the first block:
+        the loop copies one block only)."""
+        bad = AnalysisError("unsupported loop at line %d (only block-copy loops are modelled)" % s.lineno)
+        if not (isinstance(s.test, ast.Constant) and s.test.value is True and len(s.body) == 3 and not s.orelse):
+            raise bad
+        a = s.body[0]
+        rest = s.body[1:]
+        if not (isinstance(a, ast.Assign) and isinstance(a.value, ast.Call) and isinstance(a.value.func, ast.Attribute) and a.value.func.attr == "read"
+                and len(a.targets) == 1 and isinstance(a.targets[0], ast.Name)):
+            raise bad
+        dv = a.targets[0].id
+        stop = [x for x in rest if isinstance(x, ast.If)]
+        wr = [x for x in rest if isinstance(x, ast.Expr) and isinstance(x.value, ast.Call) and isinstance(x.value.func, ast.Attribute) and x.value.func.attr == "write"]
+        if len(stop) != 1 or len(wr) != 1 or stop[0].orelse or len(stop[0].body) != 1 or not isinstance(stop[0].body[0], ast.Break):
+            raise bad
+        c = wr[0]
         src = self.fid_of(st, a.value.func.value)
         dst = self.fid_of(st, c.value.func.value)
-        if src is None or dst is None or dotted(c.value.args[0]) != dotted(a.targets[0]):
+        if src is None or dst is None or len(c.value.args) != 1 or dotted(c.value.args[0]) != dv:
             raise AnalysisError("copy loop does not move the data read into the destination")
+        K = norm(a.value.args[0]) if a.value.args else None
+        t = stop[0].test
+        neg = False
+        while isinstance(t, ast.UnaryOp) and isinstance(t.op, ast.Not):
+            neg = not neg
+            t = t.operand
+        kind = None
+        if isinstance(t, ast.Name) and t.id == dv and neg:
+            kind = "eof"
+        elif isinstance(t, ast.Compare) and len(t.ops) == 1 and norm(t.left) == "len(%s)" % dv and not neg:
+            r = norm(t.comparators[0])
+            o = type(t.ops[0])
+            if o is ast.Eq and r == "0":
+                kind = "eof"
+            elif o is ast.Lt and r == "1":
+                kind = "eof"
+            elif o is ast.Lt and K is not None and r == K:
+                kind = "short"
+            elif o is ast.LtE and K is not None and r == K:
+                kind = "oneblock"
+        if kind is None:
+            raise AnalysisError("copy loop with an unrecognised stop condition %s at line %d" % (norm(stop[0].test), s.lineno))
         fs, fd = st.files[src], st.files[dst]
-        n = fs.E - fs.P
         if not (fd.P == fd.E):
             raise AnalysisError("copy loop writes at a position not known to be the end of the destination")
-        fs.P = fs.E
+        if kind == "oneblock":
+            # read(K) never returns more than K bytes: the stop condition holds after the first block
+            n = st.newsym("firstblock")
+            st.facts.append(("le", n, fs.E - fs.P))
+            st.events.append(("copy-one-block", src, dst, n))
+        else:
+            n = fs.E - fs.P
+            if kind == "short":
+                st.events.append(("assume", "a read shorter than requested means end of file (regular files, BytesIO)"))
+            st.events.append(("copy", src, dst, n))
+        fs.P = fs.P + n
         fd.E = fd.E + n
         fd.P = fd.P + n
-        st.events.append(("copy", src, dst, n))
         return [st]
